@@ -5,6 +5,7 @@ go 1.23
 require (
 	github.com/deckarep/golang-set v1.7.1
 	github.com/idena-network/idena-go v0.0.0
+	github.com/pkg/errors v0.9.1
 	github.com/tendermint/tm-db v0.6.7
 	golang.org/x/net v0.0.0-20220630215102-69896b714898
 )
@@ -82,7 +83,6 @@ require (
 	github.com/patrickmn/go-cache v2.1.0+incompatible // indirect
 	github.com/pborman/uuid v1.2.1 // indirect
 	github.com/pierrec/lz4/v4 v4.1.2 // indirect
-	github.com/pkg/errors v0.9.1 // indirect
 	github.com/polydawn/refmt v0.0.0-20201211092308-30ac6d18308e // indirect
 	github.com/rcrowley/go-metrics v0.0.0-20201227073835-cf1acfcdf475 // indirect
 	github.com/rjeczalik/notify v0.9.2 // indirect
